@@ -46,7 +46,7 @@ Print Assumptions C19_input_error.
 
 Example C19_witness :
   let c := {| c_n := Some 1; c_L := None; c_s := None; c_x := false; c_r := false;
-              c_sys := 100000; c_init := [2]; c_replace := false |} in
+              c_sys := 100000; c_init := [2]; c_replace := false; c_subst := fun _ => [] |} in
   let mk i := {| aid := i; alen := 1; akind := Hard |} in
   xargs_run c [mk 0; mk 1; mk 2; mk 3] false [Exit 0; Exit 3; Signal; Exit 0] = (125, [[mk 0]; [mk 1]; [mk 2]]) /\
   xargs_run c [mk 0; mk 1] false [Exit 7; Exit 0] = (123, [[mk 0]; [mk 1]]).
